@@ -221,3 +221,16 @@ pub open spec fn cache_inv(c: LruShim, m: RevMap, objs: Objs) -> bool {
     forall|k: Revision| #[trigger] c.cview().contains_key(k) ==>
         c.cview()[k].patch.is_none() && c.cview()[k].order.is_some() && c.cview()[k].order.unwrap()@ == spec_order(m, objs, k)
 }
+
+// ---------------------------------------------------------------- submitting a new version (create_delta_array_descriptor)
+/// the array submitted as a full descriptor object
+pub open spec fn submitted(obj: JObj) -> Seq<Value> {
+    match obj_desc(obj) { Some(DescV::Full(n)) => n, _ => Seq::empty() }
+}
+/// o is a non-empty edit script which turns `base` into exactly `target`
+pub open spec fn delta_of(o: JObj, base: Seq<Value>, target: Seq<Value>) -> bool {
+    match obj_desc(o) {
+        Some(DescV::Diff(p)) => p.len() > 0 && is_patch_of(p, base, target) && ops_ok(base, p, 0) && apply_ops(base, p, 0) == target,
+        _ => false,
+    }
+}
